@@ -920,6 +920,10 @@ func c12Retry(c *Ctx, a *clientAnchors) {
 			nilRet = true
 		case ret.Results[0] == errv:
 			errRet = true
+			// `if err != errDeadlineExceeded { return err }`: the try's result is handed back as it is, nil included
+			if !nilGuardedBlock(fn, ret.Block(), errv) {
+				nilRet = true
+			}
 		case s == "load(global("+a.short+".errDeadlineExceeded))":
 			dlRet = true
 			r.Check(!reachFromSuccs(call.Block(), nil, nil)[ret.Block()] || !sameCycle(ret.Block(), call.Block()), "C12-K1", key("exhausted tries yield the deadline error"), c.P.ipos(ret), "return outside the loop", "")
